@@ -292,4 +292,186 @@ theorem lastEv_sound (lo hi : Nat) (txt : Str) (i : Nat) (lf : Option Int) (pen?
     · simp only [hsp, Bool.false_eq_true, if_false] at hp ⊢
       exact ih _ _ _ _ _ _ hc (by simp; omega) (by omega) hinv hp
 
+theorem isSpaceC_nl : isSpaceC '\n' = true := by decide
+
+/-- **`_last_doc_str_token` on `pre ++ M ++ post`**: if `pre` is empty or ends in white space, the last token event of `M`
+    is a plain token word, `M` ends in white space (or nothing follows), and `post` is quiet, then the answer is the start
+    of a word of `M` -/
+theorem lastTok_struct (pre M post : Str)
+    (hpre : pre = [] ∨ ∃ c, pre.getLast? = some c ∧ isSpaceC c = true)
+    (hM : lastEv none [] M .none = .plain)
+    (hMend : post = [] ∨ ∃ c, M.getLast? = some c ∧ isSpaceC c = true)
+    (hq : quiet none [] post = true) :
+    ∃ v : Int, lastDocStrToken (pre ++ M ++ post).toArray = some v ∧ (pre.length : Int) ≤ v ∧ v + 2 ≤ (pre.length + M.length : Nat) := by
+  rw [lastDocStrToken_eq, tokScan_eq_run, List.append_assoc, tokRun_append, tokRun_append]
+  have h1 : (tokRun pre 0 (none, [], [])).2.2 = [] := tokRun_stack_nil pre 0 _ rfl hpre
+  generalize tokRun pre 0 (none, [], []) = σ1 at h1 ⊢
+  obtain ⟨lf1, pen1, st1⟩ := σ1
+  simp only at h1; subst h1
+  obtain ⟨v, hv, hlo, hhi⟩ := lastEv_sound pre.length (pre.length + M.length) M (0 + pre.length) lf1 none pen1 [] .none
+    (Or.inl rfl) (by simp) (by omega) (by intro h; cases h) hM
+  refine ⟨v, ?_, hlo, hhi⟩
+  rcases hMend with hp | hMend
+  · subst hp; exact hv
+  · have h2 : (tokRun M (0 + pre.length) (lf1, pen1, [])).2.2 = [] := tokRun_stack_nil M _ _ rfl (Or.inr hMend)
+    generalize tokRun M (0 + pre.length) (lf1, pen1, []) = σ2 at h2 hv ⊢
+    obtain ⟨lf2, pen2, st2⟩ := σ2
+    simp only at h2 hv; subst h2
+    rw [quiet_sound post _ lf2 none pen2 [] (Or.inl rfl) hq]
+    exact hv
+
+/-! ### `endScan`, `countUntilNl`, `scanBackNl` on a line -/
+
+theorem endScan_line (a b : Str) (k : Nat) (e : Option Int) (h : '\n' ∉ a) :
+    endScan (a ++ '\n' :: b) k e = some ((k + a.length : Nat) : Int) := by
+  induction a generalizing k e with
+  | nil => simp [endScan]
+  | cons c cs ih =>
+    have hc : (c == '\n') = false := by
+      simp only [beq_eq_false_iff_ne, ne_eq]; intro e; exact h (e ▸ List.mem_cons_self)
+    simp only [List.cons_append, endScan, hc, Bool.false_eq_true, if_false]
+    rw [ih _ _ (fun m => h (List.mem_cons_of_mem _ m))]
+    simp only [List.length_cons]; congr 2; omega
+
+theorem endScan_noNl (a : Str) (k : Nat) (e : Option Int) (h : '\n' ∉ a) (hne : a ≠ []) :
+    endScan a k e = some ((k + a.length - 1 : Nat) : Int) := by
+  induction a generalizing k e with
+  | nil => exact absurd rfl hne
+  | cons c cs ih =>
+    have hc : (c == '\n') = false := by
+      simp only [beq_eq_false_iff_ne, ne_eq]; intro e; exact h (e ▸ List.mem_cons_self)
+    simp only [endScan, hc, Bool.false_eq_true, if_false]
+    cases cs with
+    | nil => simp [endScan]
+    | cons c' cs' =>
+      rw [ih _ _ (fun m => h (List.mem_cons_of_mem _ m)) (by simp)]
+      simp only [List.length_cons]; congr 2; omega
+
+theorem countUntilNl_line (a b : Str) (h : '\n' ∉ a) : countUntilNl (a ++ '\n' :: b) = a.length := by
+  unfold countUntilNl
+  induction a with
+  | nil => simp
+  | cons c cs ih =>
+    have hc : c ≠ '\n' := fun e => h (e ▸ List.mem_cons_self)
+    simp only [List.cons_append, List.takeWhile_cons, bne_iff_ne, ne_eq, hc, not_false_eq_true, if_true, List.length_cons]
+    rw [ih (fun m => h (List.mem_cons_of_mem _ m))]
+
+theorem countUntilNl_noNl (a : Str) (h : '\n' ∉ a) : countUntilNl a = a.length := by
+  unfold countUntilNl
+  induction a with
+  | nil => simp
+  | cons c cs ih =>
+    have hc : c ≠ '\n' := fun e => h (e ▸ List.mem_cons_self)
+    simp only [List.takeWhile_cons, bne_iff_ne, ne_eq, hc, not_false_eq_true, if_true, List.length_cons]
+    rw [ih (fun m => h (List.mem_cons_of_mem _ m))]
+
+/-- `for v in range(hi, 0, -1)` started inside a line whose preceding newline is at an index ≥ 1 finds that newline -/
+theorem scanBackNlAux_line (pre mid post : Str) (hpre : pre ≠ []) (hmid : '\n' ∉ mid) (j : Nat) (hj : j ≤ mid.length)
+    (v : Option Int) :
+    scanBackNlAux (pre ++ '\n' :: (mid ++ post)).toArray (pre.length + j) v = .ok (some ((pre.length + 1 : Nat) : Int)) := by
+  induction j generalizing v with
+  | zero =>
+    obtain ⟨k, hk⟩ : ∃ k, pre.length = k + 1 := by
+      cases pre with
+      | nil => exact absurd rfl hpre
+      | cons _ t => exact ⟨t.length, rfl⟩
+    simp only [Nat.add_zero]
+    rw [hk, scanBackNlAux, ← hk, at?_nat]
+    simp
+  | succ j ih =>
+    have hlt : j < mid.length := by omega
+    have hne : mid[j] ≠ '\n' := fun h => hmid (h ▸ List.getElem_mem hlt)
+    have hidx : pre.length + (j + 1) = (pre.length + j) + 1 := by omega
+    rw [hidx, scanBackNlAux, ← hidx, at?_nat]
+    have : (pre ++ '\n' :: (mid ++ post))[pre.length + (j + 1)]? = some mid[j] := by
+      have := getElem?_mid (pre ++ ['\n']) mid post j hlt
+      simp only [List.append_assoc, List.singleton_append, List.length_append, List.length_singleton] at this
+      rw [← this]; congr 1; omega
+    rw [this]
+    simp only [beq_iff_eq, hne, if_false]
+    exact ih (by omega) _
+
+theorem scanBackNl_line (pre mid post : Str) (hpre : pre ≠ []) (hmid : '\n' ∉ mid) (j : Nat) (hj : j ≤ mid.length) :
+    scanBackNl (pre ++ '\n' :: (mid ++ post)).toArray ((pre.length + j : Nat) : Int) = .ok (some ((pre.length + 1 : Nat) : Int)) := by
+  unfold scanBackNl
+  have hpos : 0 < pre.length := List.length_pos_iff.mpr hpre
+  have : ¬ (((pre.length + j : Nat) : Int) ≤ 0) := by omega
+  simp only [this, if_false, Int.toNat_natCast]
+  exact scanBackNlAux_line pre mid post hpre hmid j hj none
+
+/-- the countdown never raises below the length of the string -/
+theorem scanBackNlAux_total (d : Str) (k : Nat) (hk : k < d.length) (v : Option Int) :
+    ∃ r, scanBackNlAux d.toArray k v = .ok r := by
+  induction k generalizing v with
+  | zero => exact ⟨v, rfl⟩
+  | succ k ih =>
+    rw [scanBackNlAux, at?_nat, List.getElem?_eq_getElem hk]
+    simp only
+    split
+    · exact ⟨_, rfl⟩
+    · exact ih (by omega) _
+
+theorem scanBackNl_total (d : Str) (hi : Int) (h : hi < d.length) : ∃ r, scanBackNl d.toArray hi = .ok r := by
+  unfold scanBackNl
+  split
+  · exact ⟨none, rfl⟩
+  · exact scanBackNlAux_total d hi.toNat (by omega) none
+
+/-! ### the format is not numpydoc as soon as some line starts with a ReST or Google token -/
+
+theorem contains_of_isPrefixOf (s p : Str) (h : p.isPrefixOf s = true) : contains s p = true := by
+  cases s with
+  | nil => cases p with
+    | nil => rfl
+    | cons _ _ => simp at h
+  | cons c cs => simp [contains, h]
+
+theorem contains_append_right (a b p : Str) (h : contains b p = true) : contains (a ++ b) p = true := by
+  induction a with
+  | nil => exact h
+  | cons c cs ih => simp [contains, ih]
+
+theorem contains_append_left (a b p : Str) (h : contains a p = true) : contains (a ++ b) p = true := by
+  induction a with
+  | nil =>
+    simp only [contains, List.isEmpty_iff] at h
+    subst h
+    cases b <;> simp [contains]
+  | cons c cs ih =>
+    simp only [contains, Bool.or_eq_true] at h
+    simp only [List.cons_append, contains, Bool.or_eq_true]
+    rcases h with h | h
+    · left
+      rw [List.isPrefixOf_iff_prefix] at *
+      exact h.trans (List.prefix_append (c :: cs) b)
+    · right; exact ih h
+
+theorem lstrip_decomp (l : Str) : ∃ ws, l = ws ++ lstrip l := ⟨l.takeWhile isSpaceC, (List.takeWhile_append_dropWhile).symm⟩
+
+/-- ReST and Google tokens -/
+def fieldTokens : List String := restTokens ++ googleTokens
+
+theorem deriveFormat_ne_numpydoc (pre L post : Str) (h : startsWithAny fieldTokens (lstrip L) = true) :
+    deriveFormat (pre ++ L ++ post).toArray ≠ .numpydoc := by
+  unfold startsWithAny at h
+  rw [List.any_eq_true] at h
+  obtain ⟨t, ht, hp⟩ := h
+  obtain ⟨ws, hws⟩ := lstrip_decomp L
+  have hc : contains (pre ++ L ++ post) t.toList = true := by
+    rw [hws, List.append_assoc]
+    apply contains_append_right
+    rw [List.append_assoc]
+    apply contains_append_right
+    apply contains_append_left
+    exact contains_of_isPrefixOf _ _ hp
+  simp only [fieldTokens, List.mem_append] at ht
+  show (if (restTokens.any fun t => contains (pre ++ L ++ post) t.toList) = true then Style.rest
+        else if (googleTokens.any fun t => contains (pre ++ L ++ post) t.toList) = true then Style.google else Style.numpydoc) ≠ _
+  rcases ht with ht | ht
+  · have : (restTokens.any fun t => contains (pre ++ L ++ post) t.toList) = true := List.any_eq_true.mpr ⟨t, ht, hc⟩
+    rw [if_pos this]; decide
+  · have : (googleTokens.any fun t => contains (pre ++ L ++ post) t.toList) = true := List.any_eq_true.mpr ⟨t, ht, hc⟩
+    rw [if_pos this]
+    split <;> decide
+
 end DSS
